@@ -149,5 +149,1220 @@ theorem sqsOf_cons (b : BB) (h : b ≠ 0#64) :
   simp only [hs1, hs2, List.nil_append, if_true]
   simp
 
+/-! ### what an entry list denotes -/
+
+/-- the moves from `src` to `d`: one plain move, or the four promotions in `PROMOTION_PIECES` order -/
+def expand (promo : Bool) (src d : Sq) : List Move :=
+  if promo then promotionPieces.map (fun p => (⟨src, d, some p⟩ : Move)) else [⟨src, d, none⟩]
+
+/-- the moves of one entry that land in `mask`, in yield order -/
+def movesUnder (e : Entry) (mask : BB) : List Move :=
+  (sqsOf (e.bb &&& mask)).flatMap (expand e.promo e.sq)
+
+/-- the moves of a list of entries that land in `mask`, entry by entry -/
+def allUnder (l : List Entry) (mask : BB) : List Move := l.flatMap (movesUnder · mask)
+
+/-- what the generator will still yield under its current mask: the moves under the mask of the
+entries from `index` on, without the promotions of the current destination already handed out -/
+def under (g : MoveGen) : List Move := (allUnder (g.moves.drop g.index) g.mask).drop g.promoIdx
+
+theorem under_def (g : MoveGen) :
+    under g = (allUnder (g.moves.drop g.index) g.mask).drop g.promoIdx := rfl
+
+/-- the state invariant of the iterator (DESIGN Appendix C) -/
+structure Inv (g : MoveGen) : Prop where
+  promo_lt : g.promoIdx < 4
+  before : ∀ e ∈ g.moves.take g.index, e.bb &&& g.mask = 0#64
+  part : ∃ mid post, g.moves.drop g.index = mid ++ post ∧
+    (∀ e ∈ mid, e.bb &&& g.mask ≠ 0#64) ∧ (∀ e ∈ post, e.bb &&& g.mask = 0#64)
+  cursor : 0 < g.promoIdx → ∃ e, g.moves[g.index]? = some e ∧ e.promo = true ∧ e.bb &&& g.mask ≠ 0#64
+
+theorem expand_ne_nil (promo : Bool) (src d : Sq) : expand promo src d ≠ [] := by
+  cases promo <;> simp [expand, promotionPieces]
+
+theorem expand_length (promo : Bool) (src d : Sq) :
+    (expand promo src d).length = if promo then 4 else 1 := by
+  cases promo <;> simp [expand, promotionPieces]
+
+theorem mem_expand {promo : Bool} {src d : Sq} {m : Move} (h : m ∈ expand promo src d) :
+    m.src = src ∧ m.dst = d := by
+  cases promo
+  · simp [expand] at h; subst h; exact ⟨rfl, rfl⟩
+  · simp [expand, promotionPieces] at h
+    rcases h with h | h | h | h <;> subst h <;> exact ⟨rfl, rfl⟩
+
+theorem movesUnder_eq_nil_iff (e : Entry) (mask : BB) : movesUnder e mask = [] ↔ e.bb &&& mask = 0#64 := by
+  unfold movesUnder
+  rw [← sqsOf_eq_nil_iff]
+  cases h : sqsOf (e.bb &&& mask) with
+  | nil => simp
+  | cons a as =>
+    simp only [List.flatMap_cons, List.append_eq_nil_iff, reduceCtorEq, iff_false, not_and]
+    intro h1; exact absurd h1 (expand_ne_nil _ _ _)
+
+theorem movesUnder_congr {e e' : Entry} {m m' : BB} (hs : e.sq = e'.sq) (hp : e.promo = e'.promo)
+    (hb : e.bb &&& m = e'.bb &&& m') : movesUnder e m = movesUnder e' m' := by
+  unfold movesUnder; rw [hs, hp, hb]
+
+theorem length_flatMap_expand (promo : Bool) (src : Sq) (l : List Sq) :
+    (l.flatMap (expand promo src)).length = l.length * (if promo then 4 else 1) := by
+  induction l with
+  | nil => simp
+  | cons a as ih =>
+    rw [List.flatMap_cons, List.length_append, ih, expand_length, List.length_cons, Nat.succ_mul]
+    omega
+
+theorem movesUnder_length (e : Entry) (mask : BB) :
+    (movesUnder e mask).length = if e.promo then (e.bb &&& mask).popcnt * 4 else (e.bb &&& mask).popcnt := by
+  unfold movesUnder
+  rw [length_flatMap_expand, popcnt_eq_length_sqsOf]
+  cases e.promo <;> simp
+
+theorem movesUnder_length_le (e : Entry) (mask : BB) : (movesUnder e mask).length ≤ 256 := by
+  unfold movesUnder
+  rw [length_flatMap_expand]
+  have := sqsOf_length_le (e.bb &&& mask)
+  cases e.promo <;> simp <;> omega
+
+theorem allUnder_length_le (l : List Entry) (mask : BB) : (allUnder l mask).length ≤ l.length * 256 := by
+  induction l with
+  | nil => simp [allUnder]
+  | cons a as ih =>
+    unfold allUnder at ih ⊢
+    rw [List.flatMap_cons, List.length_append, List.length_cons, Nat.succ_mul]
+    have := movesUnder_length_le a mask
+    omega
+
+theorem allUnder_eq_nil {l : List Entry} {mask : BB} (h : ∀ e ∈ l, e.bb &&& mask = 0#64) :
+    allUnder l mask = [] := by
+  unfold allUnder
+  rw [List.flatMap_eq_nil_iff]
+  intro e he
+  exact (movesUnder_eq_nil_iff e mask).mpr (h e he)
+
+theorem allUnder_append (l1 l2 : List Entry) (mask : BB) :
+    allUnder (l1 ++ l2) mask = allUnder l1 mask ++ allUnder l2 mask := by
+  unfold allUnder; exact List.flatMap_append
+
+theorem allUnder_cons (e : Entry) (l : List Entry) (mask : BB) :
+    allUnder (e :: l) mask = movesUnder e mask ++ allUnder l mask := by
+  unfold allUnder; exact List.flatMap_cons
+
+/-- one step of the destination iteration of an entry -/
+theorem and_clear (bb mask : BB) (h : bb &&& mask ≠ 0#64) :
+    (bb ^^^ BB.ofSq (bb &&& mask).toSq) &&& mask = (bb &&& mask) ^^^ BB.ofSq (bb &&& mask).toSq := by
+  have hs := getLsbD_toSq _ h
+  rw [BitVec.getLsbD_and] at hs
+  apply BitVec.eq_of_getLsbD_eq
+  intro i hi
+  simp only [BitVec.getLsbD_and, BitVec.getLsbD_xor, BB.getLsbD_ofSq]
+  simp only [Bool.and_eq_true] at hs
+  by_cases hi' : i = (bb &&& mask).toSq.val
+  · rw [hi', hs.1, hs.2]; simp
+  · simp [hi']
+
+theorem movesUnder_step (e : Entry) (mask : BB) (h : e.bb &&& mask ≠ 0#64) :
+    movesUnder e mask = expand e.promo e.sq (e.bb &&& mask).toSq ++
+      movesUnder { e with bb := e.bb ^^^ BB.ofSq (e.bb &&& mask).toSq } mask := by
+  unfold movesUnder
+  rw [sqsOf_cons _ h, List.flatMap_cons]
+  simp only [and_clear e.bb mask h]
+
+/-- clearing a destination that lies in `A` does not change the part of the entry outside `A` -/
+theorem clear_outside (bb A : BB) (h : bb &&& A ≠ 0#64) :
+    (bb ^^^ BB.ofSq (bb &&& A).toSq) &&& ~~~A = bb &&& ~~~A := by
+  have hs := getLsbD_toSq _ h
+  rw [BitVec.getLsbD_and] at hs
+  apply BitVec.eq_of_getLsbD_eq
+  intro i hi
+  simp only [BitVec.getLsbD_and, BitVec.getLsbD_xor, BB.getLsbD_ofSq, BitVec.getLsbD_not]
+  simp only [Bool.and_eq_true] at hs
+  by_cases hi' : i = (bb &&& A).toSq.val
+  · rw [hi', hs.1, hs.2]; simp
+  · simp [hi']
+
+/-! ### one call of `next` -/
+
+/-- clear the squares of `A` in an entry -/
+def clearE (A : BB) (e : Entry) : Entry := { e with bb := e.bb &&& ~~~A }
+
+theorem split_of_drop {l : List Entry} {i : Nat} {e : Entry} {rest : List Entry}
+    (h : l.drop i = e :: rest) :
+    l[i]? = some e ∧ l = l.take i ++ e :: rest ∧ (l.take i).length = i := by
+  have hlt : i < l.length := by
+    apply Classical.byContradiction
+    intro hn
+    have : l.drop i = [] := List.drop_eq_nil_iff.mpr (by omega)
+    rw [this] at h; cases h
+  refine ⟨?_, ?_, ?_⟩
+  · rw [← List.head?_drop, h]; rfl
+  · rw [← h]; exact (List.take_append_drop i l).symm
+  · rw [List.length_take]; omega
+
+theorem setEntryBB_of_drop {l : List Entry} {i : Nat} {e : Entry} {rest : List Entry}
+    (h : l.drop i = e :: rest) (bb : BB) :
+    setEntryBB l i bb = l.take i ++ { e with bb := bb } :: rest := by
+  obtain ⟨h1, h2, h3⟩ := split_of_drop h
+  have hlt : i < l.length := by
+    rcases List.getElem?_eq_some_iff.mp h1 with ⟨hlt, _⟩; exact hlt
+  have hget : l[i] = e := by
+    rcases List.getElem?_eq_some_iff.mp h1 with ⟨_, hg⟩; exact hg
+  have hrest : l.drop (i + 1) = rest := by
+    have := List.drop_eq_getElem_cons hlt
+    rw [h] at this
+    exact (List.cons.inj this).2.symm
+  unfold setEntryBB
+  rw [List.modify_eq_take_cons_drop hlt, hget, hrest]
+
+theorem clearE_step (e : Entry) (A : BB) (h : e.bb &&& A ≠ 0#64) :
+    clearE A { e with bb := e.bb ^^^ BB.ofSq (e.bb &&& A).toSq } = clearE A e := by
+  unfold clearE
+  simp only [clear_outside e.bb A h]
+
+/-- the effect of finishing a destination: the entry loses it, and the generator moves on to the next
+entry when nothing is left under the mask -/
+theorem advance (g : MoveGen) (hI : Inv g) (e : Entry) (rest : List Entry)
+    (hd : g.moves.drop g.index = e :: rest) (hne : e.bb &&& g.mask ≠ 0#64) (g2 : MoveGen)
+    (hg2 : g2 = if (e.bb ^^^ BB.ofSq (e.bb &&& g.mask).toSq) &&& g.mask = 0#64
+      then { moves := setEntryBB g.moves g.index (e.bb ^^^ BB.ofSq (e.bb &&& g.mask).toSq),
+             promoIdx := 0, mask := g.mask, index := g.index + 1 }
+      else { moves := setEntryBB g.moves g.index (e.bb ^^^ BB.ofSq (e.bb &&& g.mask).toSq),
+             promoIdx := 0, mask := g.mask, index := g.index }) :
+    Inv g2 ∧
+    allUnder (g.moves.drop g.index) g.mask = expand e.promo e.sq (e.bb &&& g.mask).toSq ++ under g2 ∧
+    g2.mask = g.mask ∧ g2.moves.map (clearE g.mask) = g.moves.map (clearE g.mask) := by
+  obtain ⟨_, hbefore, ⟨mid, post, hsplit, hmid, hpost⟩, _⟩ := hI
+  obtain ⟨_, hl, hlen⟩ := split_of_drop hd
+  have hset := setEntryBB_of_drop hd (e.bb ^^^ BB.ofSq (e.bb &&& g.mask).toSq)
+  -- the current entry heads the non-empty block
+  rw [hd] at hsplit
+  cases mid with
+  | nil =>
+    simp only [List.nil_append] at hsplit
+    exact absurd (hpost e (by rw [← hsplit]; simp)) hne
+  | cons e0 mid' =>
+    simp only [List.cons_append, List.cons.injEq] at hsplit
+    obtain ⟨he0, hrest⟩ := hsplit
+    subst he0
+    have hstep := movesUnder_step e g.mask hne
+    have hcl := clearE_step e g.mask hne
+    have hmap : (List.take g.index g.moves ++
+        { e with bb := e.bb ^^^ BB.ofSq (e.bb &&& g.mask).toSq } :: rest).map (clearE g.mask) =
+        g.moves.map (clearE g.mask) := by
+      conv => rhs; rw [hl]
+      simp only [List.map_append, List.map_cons, hcl]
+    by_cases hb : (e.bb ^^^ BB.ofSq (e.bb &&& g.mask).toSq) &&& g.mask = 0#64
+    · rw [if_pos hb] at hg2
+      subst hg2
+      have hassoc : List.take g.index g.moves ++
+          { e with bb := e.bb ^^^ BB.ofSq (e.bb &&& g.mask).toSq } :: rest =
+          (List.take g.index g.moves ++ [{ e with bb := e.bb ^^^ BB.ofSq (e.bb &&& g.mask).toSq }]) ++ rest := by
+        simp
+      have hlen' : (List.take g.index g.moves ++
+          [{ e with bb := e.bb ^^^ BB.ofSq (e.bb &&& g.mask).toSq }]).length = g.index + 1 := by
+        rw [List.length_append, hlen]; rfl
+      refine ⟨⟨by simp, ?_, ⟨mid', post, ?_, ?_, hpost⟩, by simp⟩, ?_, rfl, ?_⟩
+      · intro x hx
+        simp only [hset] at hx
+        rw [hassoc, List.take_left' hlen'] at hx
+        rcases List.mem_append.mp hx with hx | hx
+        · exact hbefore x hx
+        · simp only [List.mem_singleton] at hx; subst hx; exact hb
+      · simp only [hset]
+        rw [hassoc, List.drop_left' hlen']; exact hrest
+      · intro x hx; exact hmid x (by simp [hx])
+      · unfold under
+        simp only [hset, List.drop_zero]
+        rw [hassoc, List.drop_left' hlen', hd, allUnder_cons, hstep,
+          (movesUnder_eq_nil_iff _ _).mpr hb, List.append_nil]
+      · simp only [hset]; exact hmap
+    · rw [if_neg hb] at hg2
+      subst hg2
+      refine ⟨⟨by simp, ?_, ⟨{ e with bb := e.bb ^^^ BB.ofSq (e.bb &&& g.mask).toSq } :: mid', post,
+          ?_, ?_, hpost⟩, by simp⟩, ?_, rfl, ?_⟩
+      · intro x hx
+        simp only [hset] at hx
+        rw [List.take_left' hlen] at hx
+        exact hbefore x hx
+      · simp only [hset]
+        rw [List.drop_left' hlen, hrest]; rfl
+      · intro x hx
+        rcases List.mem_cons.mp hx with hx | hx
+        · subst hx; exact hb
+        · exact hmid x (by simp [hx])
+      · unfold under
+        simp only [hset, List.drop_zero]
+        rw [List.drop_left' hlen, hd, allUnder_cons, allUnder_cons, hstep, List.append_assoc]
+      · simp only [hset]; exact hmap
+
+/-- what one successful `next` does -/
+structure Step (g : MoveGen) (m : Move) (g' : MoveGen) : Prop where
+  inv : Inv g'
+  under_eq : under g = m :: under g'
+  mask_eq : g'.mask = g.mask
+  cleared : g'.moves.map (clearE g.mask) = g.moves.map (clearE g.mask)
+
+theorem next_cases (g : MoveGen) (hI : Inv g) :
+    (next g = (none, g) ∧ under g = [] ∧ ∀ e ∈ g.moves, e.bb &&& g.mask = 0#64) ∨
+    ∃ m g', next g = (some m, g') ∧ Step g m g' := by
+  have hI' := hI
+  obtain ⟨hpi, hbefore, ⟨mid, post, hsplit, hmid, hpost⟩, hcur⟩ := hI'
+  cases hd : g.moves.drop g.index with
+  | nil =>
+    left
+    have hget : g.moves[g.index]? = none := by rw [← List.head?_drop, hd]; rfl
+    refine ⟨?_, ?_, ?_⟩
+    · unfold next; rw [hget]
+    · unfold under; rw [hd]; simp [allUnder]
+    · intro x hx
+      rw [← List.take_append_drop g.index g.moves, hd, List.append_nil] at hx
+      exact hbefore x hx
+  | cons e rest =>
+    obtain ⟨hget, hl, hlen⟩ := split_of_drop hd
+    by_cases he : e.bb &&& g.mask = 0#64
+    · left
+      have hmidnil : mid = [] := by
+        cases mid with
+        | nil => rfl
+        | cons e0 mid' =>
+          rw [hd] at hsplit
+          simp only [List.cons_append, List.cons.injEq] at hsplit
+          exact absurd he (hsplit.1 ▸ hmid e0 (by simp))
+      subst hmidnil
+      simp only [List.nil_append] at hsplit
+      refine ⟨?_, ?_, ?_⟩
+      · unfold next; simp only [hget]; rw [if_pos he]
+      · unfold under; rw [hsplit, allUnder_eq_nil hpost]; simp
+      · intro x hx
+        rw [← List.take_append_drop g.index g.moves, hsplit] at hx
+        rcases List.mem_append.mp hx with hx | hx
+        · exact hbefore x hx
+        · exact hpost x hx
+    · right
+      cases hp : e.promo with
+      | false =>
+        have hpi0 : g.promoIdx = 0 := by
+          apply Classical.byContradiction
+          intro hn
+          obtain ⟨e1, h1, h2, _⟩ := hcur (by omega)
+          rw [hget] at h1
+          cases h1
+          rw [hp] at h2; cases h2
+        obtain ⟨hinv, hu, hm, hc⟩ := advance g hI e rest hd he _ rfl
+        refine ⟨⟨e.sq, (e.bb &&& g.mask).toSq, none⟩, _, ?_, ⟨hinv, ?_, hm, hc⟩⟩
+        · unfold next
+          simp only [hget, if_neg he, hp, Bool.false_eq_true, if_false]
+          obtain ⟨mv, pi, mk, ix⟩ := g
+          simp only at hpi0
+          subst hpi0
+          split <;> rfl
+        · rw [under_def g, hpi0, List.drop_zero, hu, hp]
+          rfl
+      | true =>
+        by_cases h3 : g.promoIdx + 1 ≥ 4
+        · have hpi3 : g.promoIdx = 3 := by omega
+          obtain ⟨hinv, hu, hm, hc⟩ := advance g hI e rest hd he _ rfl
+          refine ⟨⟨e.sq, (e.bb &&& g.mask).toSq, some .bishop⟩, _, ?_, ⟨hinv, ?_, hm, hc⟩⟩
+          · unfold next
+            simp only [hget, if_neg he, hp, if_true, if_pos h3]
+            rw [hpi3]
+            split <;> rfl
+          · rw [under_def g, hpi3, hu, hp]
+            simp [expand, promotionPieces]
+        · have hstep := movesUnder_step e g.mask he
+          refine ⟨⟨e.sq, (e.bb &&& g.mask).toSq, promotionPieces[g.promoIdx]?⟩,
+            { g with promoIdx := g.promoIdx + 1 }, ?_, ⟨⟨?_, hbefore, ⟨mid, post, hsplit, hmid, hpost⟩, ?_⟩, ?_, rfl, rfl⟩⟩
+          · unfold next
+            simp only [hget, if_neg he, hp, if_true, if_neg h3]
+          · show g.promoIdx + 1 < 4
+            omega
+          · intro _
+            exact ⟨e, hget, hp, he⟩
+          · unfold under
+            show List.drop g.promoIdx (allUnder (List.drop g.index g.moves) g.mask) = _ ::
+              List.drop (g.promoIdx + 1) (allUnder (List.drop g.index g.moves) g.mask)
+            rw [hd, allUnder_cons, hstep, hp]
+            have : g.promoIdx = 0 ∨ g.promoIdx = 1 ∨ g.promoIdx = 2 := by omega
+            rcases this with h | h | h <;> rw [h] <;> simp [expand, promotionPieces]
+
+theorem inv_next (g : MoveGen) (hI : Inv g) : Inv (next g).2 := by
+  rcases next_cases g hI with ⟨h, _, _⟩ | ⟨m, g', h, hs⟩
+  · rw [h]; exact hI
+  · rw [h]; exact hs.inv
+
+theorem next_spec (g : MoveGen) (hI : Inv g) (m : Move) (g' : MoveGen) (h : next g = (some m, g')) :
+    under g = m :: under g' := by
+  rcases next_cases g hI with ⟨h', _, _⟩ | ⟨m', g'', h', hs⟩
+  · rw [h'] at h; cases h
+  · rw [h'] at h; cases h; exact hs.under_eq
+
+theorem next_none_iff (g : MoveGen) (hI : Inv g) : (next g).1 = none ↔ under g = [] := by
+  rcases next_cases g hI with ⟨h', hu, _⟩ | ⟨m', g'', h', hs⟩
+  · rw [h']; simp [hu]
+  · rw [h', hs.under_eq]; simp
+
+/-- `next` never changes the mask -/
+theorem next_mask (g : MoveGen) (hI : Inv g) : (next g).2.mask = g.mask := by
+  rcases next_cases g hI with ⟨h, _, _⟩ | ⟨m, g', h, hs⟩
+  · rw [h]
+  · rw [h]; exact hs.mask_eq
+
+/-! ### `len` -/
+
+theorem lenFrom_eq (mask : BB) (mid post : List Entry) (hmid : ∀ e ∈ mid, e.bb &&& mask ≠ 0#64)
+    (hpost : ∀ e ∈ post, e.bb &&& mask = 0#64) :
+    lenFrom mask (mid ++ post) = (allUnder (mid ++ post) mask).length := by
+  induction mid with
+  | nil =>
+    rw [List.nil_append, allUnder_eq_nil hpost]
+    cases post with
+    | nil => rfl
+    | cons e p =>
+      unfold lenFrom
+      rw [if_pos (hpost e (by simp))]; rfl
+  | cons e mid' ih =>
+    have ih' := ih (fun x hx => hmid x (by simp [hx]))
+    rw [List.cons_append, allUnder_cons, List.length_append, ← ih', movesUnder_length]
+    conv => lhs; unfold lenFrom
+    rw [if_neg (hmid e (by simp))]
+
+theorem len_exact (g : MoveGen) (hI : Inv g) : len g = (under g).length := by
+  obtain ⟨_, _, ⟨mid, post, hsplit, hmid, hpost⟩, _⟩ := hI
+  unfold len under
+  rw [List.length_drop, hsplit, lenFrom_eq g.mask mid post hmid hpost]
+
+/-! ### draining -/
+
+theorem clearE_of_empty (A : BB) (e : Entry) (h : e.bb &&& A = 0#64) : clearE A e = e := by
+  have : e.bb &&& ~~~A = e.bb := by
+    apply BitVec.eq_of_getLsbD_eq
+    intro i hi
+    have hb : (e.bb &&& A).getLsbD i = false := by rw [h]; simp
+    rw [BitVec.getLsbD_and] at hb
+    rw [BitVec.getLsbD_and, BitVec.getLsbD_not]
+    cases h1 : e.bb.getLsbD i <;> cases h2 : A.getLsbD i <;> simp_all
+  unfold clearE
+  rw [this]
+
+theorem clearE_and (A : BB) (e : Entry) : (clearE A e).bb &&& A = 0#64 := by
+  unfold clearE
+  apply BitVec.eq_of_getLsbD_eq
+  intro i hi
+  simp only [BitVec.getLsbD_and, BitVec.getLsbD_not]
+  cases h1 : e.bb.getLsbD i <;> cases h2 : A.getLsbD i <;> simp_all
+
+theorem promoIdx_zero_of_empty (g : MoveGen) (hI : Inv g) (h : ∀ e ∈ g.moves, e.bb &&& g.mask = 0#64) :
+    g.promoIdx = 0 := by
+  apply Classical.byContradiction
+  intro hn
+  obtain ⟨e, h1, _, h3⟩ := hI.cursor (by omega)
+  exact h3 (h e (List.mem_of_getElem? h1))
+
+/-- the result of running `next` until it returns `None` -/
+structure Drained (g : MoveGen) (r : List Move × MoveGen) : Prop where
+  yields : r.1 = under g
+  done : under r.2 = []
+  inv : Inv r.2
+  mask_eq : r.2.mask = g.mask
+  promo0 : r.2.promoIdx = 0
+  moves_eq : r.2.moves = g.moves.map (clearE g.mask)
+
+theorem drainFuel_exact (n : Nat) : ∀ (g : MoveGen), Inv g → (under g).length < n →
+    Drained g (drainFuel n g) := by
+  induction n with
+  | zero => intro g _ h; omega
+  | succ n ih =>
+    intro g hI hn
+    rcases next_cases g hI with ⟨h, hu, hall⟩ | ⟨m, g', h, hs⟩
+    · have : drainFuel (n + 1) g = ([], g) := by unfold drainFuel; rw [h]
+      rw [this]
+      refine ⟨hu.symm, hu, hI, rfl, promoIdx_zero_of_empty g hI hall, ?_⟩
+      show g.moves = g.moves.map (clearE g.mask)
+      conv => lhs; rw [← List.map_id g.moves]
+      apply List.map_congr_left
+      intro e he
+      exact (clearE_of_empty g.mask e (hall e he)).symm
+    · have : drainFuel (n + 1) g = (m :: (drainFuel n g').1, (drainFuel n g').2) := by
+        conv => lhs; unfold drainFuel
+        rw [h]
+      rw [this]
+      have hlen : (under g').length < n := by
+        have := hs.under_eq
+        rw [this, List.length_cons] at hn
+        omega
+      obtain ⟨h1, h2, h3, h4, h5, h6⟩ := ih g' hs.inv hlen
+      refine ⟨?_, h2, h3, ?_, h5, ?_⟩
+      · show m :: (drainFuel n g').1 = under g
+        rw [h1, hs.under_eq]
+      · show (drainFuel n g').2.mask = g.mask
+        rw [h4, hs.mask_eq]
+      · show (drainFuel n g').2.moves = g.moves.map (clearE g.mask)
+        rw [h6, hs.mask_eq, hs.cleared]
+
+theorem under_length_le (g : MoveGen) : (under g).length ≤ g.moves.length * 256 := by
+  unfold under
+  rw [List.length_drop]
+  have h1 := allUnder_length_le (g.moves.drop g.index) g.mask
+  rw [List.length_drop] at h1
+  have : (g.moves.length - g.index) * 256 ≤ g.moves.length * 256 := Nat.mul_le_mul_right _ (by omega)
+  omega
+
+/-- the fuel of `drain` always suffices -/
+theorem drain_exact (g : MoveGen) (hI : Inv g) : Drained g (drain g) := by
+  unfold drain
+  apply drainFuel_exact _ g hI
+  have := under_length_le g
+  omega
+
+/-! ### the partition loop of `set_iterator_mask` -/
+
+theorem swap_perm (l : List Entry) (i j : Nat) (ei ej : Entry) (hi : l[i]? = some ei)
+    (hj : l[j]? = some ej) : ((l.set i ej).set j ei).Perm l := by
+  obtain ⟨hil, hig⟩ := List.getElem?_eq_some_iff.mp hi
+  obtain ⟨hjl, hjg⟩ := List.getElem?_eq_some_iff.mp hj
+  have hjl' : j < (l.set i ej).length := by rw [List.length_set]; exact hjl
+  have hj' : (l.set i ej)[j] = ej := by
+    rw [List.getElem_set]
+    split
+    · rfl
+    · exact hjg
+  rw [List.perm_iff_count]
+  intro a
+  rw [List.count_set hjl', List.count_set hil, hj', hig]
+  have hpos : (ei == a) = true → 0 < List.count a l := by
+    intro h
+    rw [List.count_pos_iff]
+    have : ei = a := by simpa using h
+    rw [← this, ← hig]; exact List.getElem_mem hil
+  by_cases h1 : (ei == a) = true <;> by_cases h2 : (ej == a) = true <;>
+    simp only [h1, h2, if_true, Bool.false_eq_true, if_false]
+  · have := hpos h1; omega
+  · have := hpos h1; omega
+  · omega
+  · omega
+
+/-- after the scan, the first `i` entries have a move under the mask and no other entry has one; the
+list is a rearrangement of the original -/
+theorem partitionLoop_spec (mask : BB) (c : Nat) : ∀ (l : List Entry) (i j : Nat), i < j →
+    j + c = l.length →
+    (∀ k, k < i → ∀ e, l[k]? = some e → e.bb &&& mask ≠ 0#64) →
+    (∀ k, i ≤ k → k < j → ∀ e, l[k]? = some e → e.bb &&& mask = 0#64) →
+    (partitionLoop mask l i (List.range' j c)).1.Perm l ∧
+    (∀ k, k < (partitionLoop mask l i (List.range' j c)).2 → ∀ e,
+      (partitionLoop mask l i (List.range' j c)).1[k]? = some e → e.bb &&& mask ≠ 0#64) ∧
+    (∀ k, (partitionLoop mask l i (List.range' j c)).2 ≤ k → ∀ e,
+      (partitionLoop mask l i (List.range' j c)).1[k]? = some e → e.bb &&& mask = 0#64) := by
+  induction c with
+  | zero =>
+    intro l i j hij hlen hA hB
+    simp only [List.range'_zero, partitionLoop]
+    refine ⟨List.Perm.refl _, hA, ?_⟩
+    intro k hk e he
+    have hkl : k < l.length := (List.getElem?_eq_some_iff.mp he).1
+    exact hB k hk (by omega) e he
+  | succ c ih =>
+    intro l i j hij hlen hA hB
+    have hjl : j < l.length := by omega
+    have hil : i < l.length := by omega
+    have hgj : l[j]? = some l[j] := List.getElem?_eq_getElem hjl
+    have hgi : l[i]? = some l[i] := List.getElem?_eq_getElem hil
+    have hunf : partitionLoop mask l i (List.range' j (c + 1)) =
+        if l[j].bb &&& mask ≠ 0#64 then
+          partitionLoop mask ((l.set i l[j]).set j l[i]) (i + 1) (List.range' (j + 1) c)
+        else partitionLoop mask l i (List.range' (j + 1) c) := by
+      rw [List.range'_succ]
+      conv => lhs; unfold partitionLoop
+      simp only [hgj, hgi]
+    rw [hunf]
+    by_cases hne : l[j].bb &&& mask ≠ 0#64
+    · rw [if_pos hne]
+      have hlen' : j + 1 + c = ((l.set i l[j]).set j l[i]).length := by
+        rw [List.length_set, List.length_set]; omega
+      have := ih ((l.set i l[j]).set j l[i]) (i + 1) (j + 1) (by omega) hlen' (by
+        intro k hk e he
+        rw [List.getElem?_set, List.getElem?_set] at he
+        have hjk : ¬ j = k := by omega
+        rw [if_neg hjk] at he
+        by_cases hik : i = k
+        · rw [if_pos hik, if_pos hil] at he
+          cases he; exact hne
+        · rw [if_neg hik] at he
+          exact hA k (by omega) e he) (by
+        intro k hk1 hk2 e he
+        rw [List.getElem?_set, List.getElem?_set] at he
+        by_cases hjk : j = k
+        · rw [if_pos hjk, if_pos (by rw [List.length_set]; exact hjl)] at he
+          cases he
+          exact hB i (Nat.le_refl i) hij _ hgi
+        · rw [if_neg hjk, if_neg (by omega)] at he
+          exact hB k (by omega) (by omega) e he)
+      refine ⟨this.1.trans (swap_perm l i j _ _ hgi hgj), this.2⟩
+    · rw [if_neg hne]
+      have hne' : l[j].bb &&& mask = 0#64 := Classical.not_not.mp hne
+      exact ih l i (j + 1) (by omega) (by omega) hA (by
+        intro k hk1 hk2 e he
+        by_cases hjk : k = j
+        · subst hjk
+          rw [hgj] at he; cases he; exact hne'
+        · exact hB k hk1 (by omega) e he)
+
+theorem takeWhile_spec {α : Type} (p : α → Bool) (l : List α) :
+    (∀ k, k < (l.takeWhile p).length → ∀ e, l[k]? = some e → p e = true) ∧
+    (∀ e, l[(l.takeWhile p).length]? = some e → p e = false) ∧
+    (l.takeWhile p).length ≤ l.length := by
+  induction l with
+  | nil => simp
+  | cons a as ih =>
+    by_cases hp : p a = true
+    · rw [List.takeWhile_cons_of_pos hp]
+      refine ⟨?_, ?_, ?_⟩
+      · intro k hk e he
+        cases k with
+        | zero => simp at he; subst he; exact hp
+        | succ k =>
+          simp only [List.length_cons] at hk
+          simp only [List.getElem?_cons_succ] at he
+          exact ih.1 k (by omega) e he
+      · intro e he
+        simp only [List.length_cons, List.getElem?_cons_succ] at he
+        exact ih.2.1 e he
+      · simp only [List.length_cons]; have := ih.2.2; omega
+    · rw [List.takeWhile_cons_of_neg hp]
+      refine ⟨?_, ?_, ?_⟩
+      · intro k hk; simp at hk
+      · intro e he
+        simp at he; subst he
+        simpa using hp
+      · simp
+
+theorem setIteratorMask_eq (g : MoveGen) (mask : BB) :
+    setIteratorMask g mask =
+      { g with mask := mask, index := 0,
+               moves := (partitionLoop mask g.moves (g.moves.takeWhile fun e => e.bb &&& mask ≠ 0#64).length
+                  ((List.range g.moves.length).drop
+                    ((g.moves.takeWhile fun e => e.bb &&& mask ≠ 0#64).length + 1))).1 } := rfl
+
+/-- `set_iterator_mask` rearranges the entries so that those with a move under the new mask come first -/
+theorem setIteratorMask_spec (g : MoveGen) (mask : BB) :
+    (setIteratorMask g mask).moves.Perm g.moves ∧ (setIteratorMask g mask).mask = mask ∧
+    (setIteratorMask g mask).index = 0 ∧ (setIteratorMask g mask).promoIdx = g.promoIdx ∧
+    ∃ k, (∀ e ∈ (setIteratorMask g mask).moves.take k, e.bb &&& mask ≠ 0#64) ∧
+         (∀ e ∈ (setIteratorMask g mask).moves.drop k, e.bb &&& mask = 0#64) := by
+  rw [setIteratorMask_eq]
+  refine ⟨?_, rfl, rfl, rfl, ?_⟩ <;>
+  simp only []
+  all_goals
+    obtain ⟨hA, hB, hle⟩ := takeWhile_spec (fun e : Entry => decide (e.bb &&& mask ≠ 0#64)) g.moves
+    generalize hi : (g.moves.takeWhile fun e => decide (e.bb &&& mask ≠ 0#64)).length = i at hA hB hle ⊢
+    have hspec : ∀ (r : List Entry × Nat),
+        r = partitionLoop mask g.moves i ((List.range g.moves.length).drop (i + 1)) →
+        r.1.Perm g.moves ∧
+        (∀ k, k < r.2 → ∀ e, r.1[k]? = some e → e.bb &&& mask ≠ 0#64) ∧
+        (∀ k, r.2 ≤ k → ∀ e, r.1[k]? = some e → e.bb &&& mask = 0#64) := by
+      intro r hr
+      by_cases hlt : i < g.moves.length
+      · have hrange : (List.range g.moves.length).drop (i + 1) =
+            List.range' (i + 1) (g.moves.length - (i + 1)) := by
+          rw [List.range_eq_range', List.drop_range']; simp
+        rw [hrange] at hr
+        subst hr
+        exact partitionLoop_spec mask _ g.moves i (i + 1) (by omega) (by omega)
+          (fun k hk e he => by simpa using hA k hk e he)
+          (fun k hk1 hk2 e he => by
+            have : k = i := by omega
+            subst this
+            simpa using hB e he)
+      · have hrange : (List.range g.moves.length).drop (i + 1) = [] := by
+          rw [List.drop_eq_nil_iff, List.length_range]; omega
+        rw [hrange] at hr
+        subst hr
+        simp only [partitionLoop]
+        refine ⟨List.Perm.refl _, fun k hk e he => by simpa using hA k hk e he, ?_⟩
+        intro k hk e he
+        have := (List.getElem?_eq_some_iff.mp he).1
+        omega
+  · exact (hspec _ rfl).1
+  · obtain ⟨_, h2, h3⟩ := hspec _ rfl
+    refine ⟨(partitionLoop mask g.moves i ((List.range g.moves.length).drop (i + 1))).2, ?_, ?_⟩
+    · intro e he
+      obtain ⟨k, hk, hke⟩ := List.mem_take_iff_getElem.mp he
+      exact h2 k (by omega) e (by rw [← hke]; exact List.getElem?_eq_getElem _)
+    · intro e he
+      obtain ⟨k, hk, hke⟩ := List.mem_drop_iff_getElem.mp he
+      exact h3 _ (Nat.le_add_right _ k) e (by rw [← hke]; exact List.getElem?_eq_getElem _)
+
+/-! ### permutation helpers -/
+
+theorem flatMap_perm_pointwise {α β : Type} (l : List α) (f g : α → List β)
+    (h : ∀ a ∈ l, (f a).Perm (g a)) : (l.flatMap f).Perm (l.flatMap g) := by
+  induction l with
+  | nil => exact List.Perm.refl _
+  | cons a as ih =>
+    rw [List.flatMap_cons, List.flatMap_cons]
+    exact (h a (by simp)).append (ih (fun x hx => h x (by simp [hx])))
+
+theorem flatMap_append_fn_perm {α β : Type} (l : List α) (f g : α → List β) :
+    (l.flatMap (fun a => f a ++ g a)).Perm (l.flatMap f ++ l.flatMap g) := by
+  induction l with
+  | nil => exact List.Perm.refl _
+  | cons a as ih =>
+    simp only [List.flatMap_cons, List.append_assoc]
+    apply List.Perm.append_left
+    exact (List.Perm.append_left _ ih).trans (List.perm_append_comm_assoc _ _ _)
+
+theorem allUnder_perm {l l' : List Entry} (h : l.Perm l') (mask : BB) :
+    (allUnder l mask).Perm (allUnder l' mask) := List.Perm.flatMap_right _ h
+
+/-! ### changing the mask -/
+
+theorem under_eq_allUnder (g : MoveGen) (hI : Inv g) (h0 : g.promoIdx = 0) :
+    under g = allUnder g.moves g.mask := by
+  unfold under
+  rw [h0, List.drop_zero]
+  conv => rhs; rw [← List.take_append_drop g.index g.moves, allUnder_append]
+  rw [allUnder_eq_nil hI.before, List.nil_append]
+
+theorem inv_setMask (g : MoveGen) (h0 : g.promoIdx = 0) (mask : BB) : Inv (setIteratorMask g mask) := by
+  obtain ⟨_, hm, hi, hp, k, hk1, hk2⟩ := setIteratorMask_spec g mask
+  refine ⟨by rw [hp, h0]; decide, ?_, ?_, ?_⟩
+  · rw [hi]; intro e he; simp at he
+  · rw [hi, hm, List.drop_zero]
+    exact ⟨_, _, (List.take_append_drop k _).symm, hk1, hk2⟩
+  · rw [hp, h0]; intro h; exact absurd h (by decide)
+
+theorem under_setMask (g : MoveGen) (h0 : g.promoIdx = 0) (mask : BB) :
+    (under (setIteratorMask g mask)).Perm (allUnder g.moves mask) := by
+  obtain ⟨hperm, hm, hi, hp, _⟩ := setIteratorMask_spec g mask
+  unfold under
+  rw [hp, h0, hi, hm, List.drop_zero, List.drop_zero]
+  exact allUnder_perm hperm mask
+
+theorem movesUnder_clearE (e : Entry) (A B : BB) :
+    movesUnder (clearE A e) B = movesUnder e (B &&& ~~~A) := by
+  apply movesUnder_congr (e := clearE A e) (e' := e) rfl rfl
+  show (e.bb &&& ~~~A) &&& B = e.bb &&& (B &&& ~~~A)
+  rw [BitVec.and_assoc, BitVec.and_comm (~~~A) B]
+
+theorem allUnder_map_clearE (l : List Entry) (A B : BB) :
+    allUnder (l.map (clearE A)) B = allUnder l (B &&& ~~~A) := by
+  unfold allUnder
+  rw [List.flatMap_map]
+  simp only [movesUnder_clearE]
+
+theorem sqsOf_union_perm (bb A B : BB) :
+    (sqsOf (bb &&& (A ||| B))).Perm (sqsOf (bb &&& A) ++ sqsOf (bb &&& (B &&& ~~~A))) := by
+  have h := List.filter_append_perm (fun s : Sq => A.getLsbD s.val) (sqsOf (bb &&& (A ||| B)))
+  have h1 : (sqsOf (bb &&& (A ||| B))).filter (fun s : Sq => A.getLsbD s.val) = sqsOf (bb &&& A) := by
+    unfold sqsOf
+    rw [List.filter_filter]
+    apply filter_congr_mem
+    intro s _
+    simp only [BitVec.getLsbD_and, BitVec.getLsbD_or]
+    cases bb.getLsbD s.val <;> cases A.getLsbD s.val <;> cases B.getLsbD s.val <;> rfl
+  have h2 : (sqsOf (bb &&& (A ||| B))).filter (fun s : Sq => !A.getLsbD s.val) =
+      sqsOf (bb &&& (B &&& ~~~A)) := by
+    unfold sqsOf
+    rw [List.filter_filter]
+    apply filter_congr_mem
+    intro s _
+    have := s.isLt
+    simp only [BitVec.getLsbD_and, BitVec.getLsbD_or, BitVec.getLsbD_not, this, decide_true, Bool.true_and]
+    cases bb.getLsbD s.val <;> cases A.getLsbD s.val <;> cases B.getLsbD s.val <;> rfl
+  rw [h1, h2] at h
+  exact h.symm
+
+theorem movesUnder_union_perm (e : Entry) (A B : BB) :
+    (movesUnder e (A ||| B)).Perm (movesUnder e A ++ movesUnder e (B &&& ~~~A)) := by
+  unfold movesUnder
+  rw [← List.flatMap_append]
+  exact List.Perm.flatMap_right _ (sqsOf_union_perm e.bb A B)
+
+theorem allUnder_union_perm (l : List Entry) (A B : BB) :
+    (allUnder l (A ||| B)).Perm (allUnder l A ++ allUnder l (B &&& ~~~A)) := by
+  unfold allUnder
+  exact (flatMap_perm_pointwise l _ _ (fun e _ => movesUnder_union_perm e A B)).trans
+    (flatMap_append_fn_perm l _ _)
+
+/-- drain under the current mask `A`, switch to mask `B`, drain again -/
+theorem mask_partition (g : MoveGen) (hI : Inv g) (B : BB) :
+    (drain g).1 = under g ∧
+    (drain (setIteratorMask (drain g).2 B)).1.Perm (allUnder g.moves (B &&& ~~~g.mask)) ∧
+    Inv (drain (setIteratorMask (drain g).2 B)).2 ∧
+    under (drain (setIteratorMask (drain g).2 B)).2 = [] := by
+  obtain ⟨h1, _, _, _, h5, h6⟩ := drain_exact g hI
+  have hI2 := inv_setMask (drain g).2 h5 B
+  obtain ⟨k1, k2, k3, _, _, _⟩ := drain_exact _ hI2
+  refine ⟨h1, ?_, k3, k2⟩
+  rw [k1]
+  have := under_setMask (drain g).2 h5 B
+  rw [h6, allUnder_map_clearE] at this
+  exact this
+
+/-- … in total every move into `A ∪ B` exactly once -/
+theorem mask_partition_total (g : MoveGen) (hI : Inv g) (h0 : g.promoIdx = 0) (B : BB) :
+    ((drain g).1 ++ (drain (setIteratorMask (drain g).2 B)).1).Perm (allUnder g.moves (g.mask ||| B)) := by
+  obtain ⟨h1, h2, _, _⟩ := mask_partition g hI B
+  rw [h1, under_eq_allUnder g hI h0]
+  exact ((List.Perm.refl _).append h2).trans (allUnder_union_perm g.moves g.mask B).symm
+
+/-! ### removals -/
+
+theorem mem_movesUnder {e : Entry} {mask : BB} {x : Move} (h : x ∈ movesUnder e mask) :
+    x.src = e.sq ∧ (e.bb &&& mask).getLsbD x.dst.val = true := by
+  unfold movesUnder at h
+  obtain ⟨d, hd, hx⟩ := List.mem_flatMap.mp h
+  obtain ⟨h1, h2⟩ := mem_expand hx
+  exact ⟨h1, by rw [h2]; exact (mem_sqsOf _ _).mp hd⟩
+
+theorem filter_flatMap_of_all {α β : Type} (l : List α) (f : α → List β) (p : β → Bool) (q : α → Bool)
+    (h : ∀ a, ∀ b ∈ f a, p b = q a) : (l.flatMap f).filter p = (l.filter q).flatMap f := by
+  induction l with
+  | nil => rfl
+  | cons a as ih =>
+    rw [List.flatMap_cons, List.filter_append, ih, List.filter_cons]
+    cases hq : q a with
+    | true =>
+      have : (f a).filter p = f a := List.filter_eq_self.mpr (fun b hb => by rw [h a b hb, hq])
+      rw [this]; simp
+    | false =>
+      have : (f a).filter p = [] := List.filter_eq_nil_iff.mpr (fun b hb => by rw [h a b hb, hq]; simp)
+      rw [this]; simp
+
+/-- the moves of an entry that avoid the squares of `r` are the moves of the entry with `r` cleared -/
+theorem movesUnder_filter_dst (e : Entry) (mask r : BB) :
+    (movesUnder e mask).filter (fun x => !r.getLsbD x.dst.val) = movesUnder (clearE r e) mask := by
+  rw [movesUnder_clearE]
+  unfold movesUnder
+  rw [filter_flatMap_of_all _ _ _ (fun d : Sq => !r.getLsbD d.val)
+    (fun d x hx => by rw [(mem_expand hx).2])]
+  congr 1
+  unfold sqsOf
+  rw [List.filter_filter]
+  apply filter_congr_mem
+  intro s _
+  have := s.isLt
+  simp only [BitVec.getLsbD_and, BitVec.getLsbD_not, this, decide_true, Bool.true_and]
+  cases e.bb.getLsbD s.val <;> cases mask.getLsbD s.val <;> cases r.getLsbD s.val <;> rfl
+
+theorem allUnder_filter_dst (l : List Entry) (mask r : BB) :
+    (allUnder l mask).filter (fun x => !r.getLsbD x.dst.val) = allUnder (l.map (clearE r)) mask := by
+  unfold allUnder
+  rw [List.filter_flatMap, List.flatMap_map]
+  simp only [movesUnder_filter_dst]
+
+theorem removeMask_eq (g : MoveGen) (r : BB) :
+    removeMask g r = setIteratorMask { g with moves := g.moves.map (clearE r) } g.mask := rfl
+
+theorem inv_removeMask (g : MoveGen) (h0 : g.promoIdx = 0) (r : BB) : Inv (removeMask g r) := by
+  rw [removeMask_eq]; exact inv_setMask _ (by exact h0) _
+
+theorem removeMask_moves_perm (g : MoveGen) (r : BB) :
+    (removeMask g r).moves.Perm (g.moves.map (clearE r)) := by
+  rw [removeMask_eq]; exact (setIteratorMask_spec _ _).1
+
+theorem removeMask_mask (g : MoveGen) (r : BB) : (removeMask g r).mask = g.mask := by
+  rw [removeMask_eq]; exact (setIteratorMask_spec _ _).2.1
+
+theorem removeMask_promoIdx (g : MoveGen) (r : BB) : (removeMask g r).promoIdx = g.promoIdx := by
+  rw [removeMask_eq]; exact (setIteratorMask_spec _ _).2.2.2.1
+
+theorem under_removeMask (g : MoveGen) (hI : Inv g) (h0 : g.promoIdx = 0) (r : BB) :
+    (under (removeMask g r)).Perm ((under g).filter fun x => !r.getLsbD x.dst.val) := by
+  rw [under_eq_allUnder g hI h0, allUnder_filter_dst, removeMask_eq]
+  exact under_setMask _ (by exact h0) _
+
+/-- the entry map of `remove_move` -/
+def rmEntry (m : Move) (e : Entry) : Entry :=
+  if e.sq = m.src then { e with bb := e.bb &&& ~~~(BB.ofSq m.dst) } else e
+
+theorem removeMove_eq (g : MoveGen) (m : Move) :
+    removeMove g m = (setIteratorMask { g with moves := g.moves.map (rmEntry m) } g.mask,
+      g.moves.any fun e => e.sq = m.src) := rfl
+
+theorem movesUnder_filter_move (e : Entry) (mask : BB) (m : Move) :
+    (movesUnder e mask).filter (fun x => !(decide (x.src = m.src) && decide (x.dst = m.dst))) =
+      movesUnder (rmEntry m e) mask := by
+  unfold rmEntry
+  by_cases hs : e.sq = m.src
+  · rw [if_pos hs]
+    have := movesUnder_filter_dst e mask (BB.ofSq m.dst)
+    unfold clearE at this
+    rw [← this]
+    apply filter_congr_mem
+    intro x hx
+    have hsrc := (mem_movesUnder hx).1
+    rw [BB.getLsbD_ofSq, hsrc, hs]
+    have : (x.dst.val = m.dst.val) ↔ (x.dst = m.dst) := ⟨Fin.ext, fun h => by rw [h]⟩
+    simp [this]
+  · rw [if_neg hs]
+    rw [List.filter_eq_self]
+    intro x hx
+    have hsrc := (mem_movesUnder hx).1
+    have : ¬ x.src = m.src := by rw [hsrc]; exact hs
+    simp [this]
+
+theorem allUnder_filter_move (l : List Entry) (mask : BB) (m : Move) :
+    (allUnder l mask).filter (fun x => !(decide (x.src = m.src) && decide (x.dst = m.dst))) =
+      allUnder (l.map (rmEntry m)) mask := by
+  unfold allUnder
+  rw [List.filter_flatMap, List.flatMap_map]
+  simp only [movesUnder_filter_move]
+
+theorem inv_removeMove (g : MoveGen) (h0 : g.promoIdx = 0) (m : Move) : Inv (removeMove g m).1 := by
+  rw [removeMove_eq]; exact inv_setMask _ (by exact h0) _
+
+theorem removeMove_moves_perm (g : MoveGen) (m : Move) :
+    (removeMove g m).1.moves.Perm (g.moves.map (rmEntry m)) := by
+  rw [removeMove_eq]; exact (setIteratorMask_spec _ _).1
+
+theorem removeMove_mask (g : MoveGen) (m : Move) : (removeMove g m).1.mask = g.mask := by
+  rw [removeMove_eq]; exact (setIteratorMask_spec _ _).2.1
+
+theorem removeMove_promoIdx (g : MoveGen) (m : Move) : (removeMove g m).1.promoIdx = g.promoIdx := by
+  rw [removeMove_eq]; exact (setIteratorMask_spec _ _).2.2.2.1
+
+theorem under_removeMove (g : MoveGen) (hI : Inv g) (h0 : g.promoIdx = 0) (m : Move) :
+    (under (removeMove g m).1).Perm
+      ((under g).filter fun x => !(decide (x.src = m.src) && decide (x.dst = m.dst))) := by
+  rw [under_eq_allUnder g hI h0, allUnder_filter_move, removeMove_eq]
+  exact under_setMask _ (by exact h0) _
+
+theorem removeMove_flag (g : MoveGen) (m : Move) :
+    (removeMove g m).2 = true ↔ ∃ e ∈ g.moves, e.sq = m.src := by
+  rw [removeMove_eq]
+  simp
+
+/-! ### fresh generators -/
+
+theorem inv_fresh (l : List Entry) (h : ∀ e ∈ l, e.bb ≠ 0#64) :
+    Inv { moves := l, promoIdx := 0, mask := ~~~0#64, index := 0 } := by
+  refine ⟨by simp, by intro e he; simp at he, ⟨l, [], by simp, ?_, by intro e he; cases he⟩,
+    by intro h; simp at h⟩
+  intro e he
+  have : e.bb &&& ~~~0#64 = e.bb := by
+    apply BitVec.eq_of_getLsbD_eq
+    intro i hi
+    simp only [BitVec.getLsbD_and, BitVec.getLsbD_not, BitVec.getLsbD_zero, hi]
+    simp
+  show e.bb &&& ~~~0#64 ≠ 0#64
+  rw [this]; exact h e he
+
+theorem ofSq_ne_zero (s : Sq) : BB.ofSq s ≠ 0#64 := by
+  intro h
+  have := BB.getLsbD_ofSq s s.val
+  rw [h] at this
+  simp at this
+
+theorem pushIf_nonempty {l : List Entry} (h : ∀ e ∈ l, e.bb ≠ 0#64) (e : Entry) :
+    ∀ x ∈ pushIf l e, x.bb ≠ 0#64 := by
+  unfold pushIf
+  split
+  · intro x hx
+    rcases List.mem_append.mp hx with hx | hx
+    · exact h x hx
+    · simp only [List.mem_singleton] at hx; subst hx; assumption
+  · exact h
+
+theorem foldl_nonempty {α : Type} (f : List Entry → α → List Entry)
+    (hf : ∀ l a, (∀ e ∈ l, e.bb ≠ 0#64) → ∀ e ∈ f l a, e.bb ≠ 0#64) (xs : List α) :
+    ∀ l, (∀ e ∈ l, e.bb ≠ 0#64) → ∀ e ∈ xs.foldl f l, e.bb ≠ 0#64 := by
+  induction xs with
+  | nil => intro l h; exact h
+  | cons a as ih => intro l h; exact ih _ (hf l a h)
+
+theorem legalsGeneric_nonempty (T : Tables) (p : Piece) (c : Bool) (l : List Entry) (b : Board) (mask : BB)
+    (h : ∀ e ∈ l, e.bb ≠ 0#64) : ∀ e ∈ legalsGeneric T p c l b mask, e.bb ≠ 0#64 := by
+  unfold legalsGeneric
+  simp only []
+  split
+  · exact foldl_nonempty _ (fun l a hl => pushIf_nonempty hl _) _ _
+      (foldl_nonempty _ (fun l a hl => pushIf_nonempty hl _) _ _ h)
+  · exact foldl_nonempty _ (fun l a hl => pushIf_nonempty hl _) _ _ h
+
+theorem legalsKnight_nonempty (T : Tables) (c : Bool) (l : List Entry) (b : Board) (mask : BB)
+    (h : ∀ e ∈ l, e.bb ≠ 0#64) : ∀ e ∈ legalsKnight T c l b mask, e.bb ≠ 0#64 := by
+  unfold legalsKnight
+  simp only []
+  split <;> exact foldl_nonempty _ (fun l a hl => pushIf_nonempty hl _) _ _ h
+
+theorem legalsKing_nonempty (T : Tables) (c : Bool) (l : List Entry) (b : Board) (mask : BB)
+    (h : ∀ e ∈ l, e.bb ≠ 0#64) : ∀ e ∈ legalsKing T c l b mask, e.bb ≠ 0#64 := by
+  unfold legalsKing
+  exact pushIf_nonempty h _
+
+theorem legalsPawn_nonempty (T : Tables) (c : Bool) (l : List Entry) (b : Board) (mask : BB)
+    (h : ∀ e ∈ l, e.bb ≠ 0#64) : ∀ e ∈ legalsPawn T c l b mask, e.bb ≠ 0#64 := by
+  unfold legalsPawn
+  simp only []
+  have h1 := foldl_nonempty _ (fun l a hl => pushIf_nonempty hl
+      ⟨a, pseudoLegals T .pawn a b.stm b.combined mask &&& checkMask T b c,
+        a.getRank = b.stm.seventhRank⟩)
+      ((b.pawns &&& b.colorCombined b.stm) &&& ~~~b.pinned).toList l h
+  split
+  · split
+    · exact foldl_nonempty _ (fun l a hl => pushIf_nonempty hl _) _ _ h1
+    · exact h1
+  · apply foldl_nonempty
+    · intro l a hl
+      split
+      · intro x hx
+        rcases List.mem_append.mp hx with hx | hx
+        · exact hl x hx
+        · simp only [List.mem_singleton] at hx; subst hx; exact ofSq_ne_zero _
+      · exact hl
+    · split
+      · exact foldl_nonempty _ (fun l a hl => pushIf_nonempty hl _) _ _ h1
+      · exact h1
+
+theorem enumerate_nonempty (T : Tables) (b : Board) : ∀ e ∈ enumerate T b, e.bb ≠ 0#64 := by
+  have h0 : ∀ e ∈ ([] : List Entry), e.bb ≠ 0#64 := by intro e he; cases he
+  unfold enumerate
+  simp only []
+  split
+  · exact legalsKing_nonempty _ _ _ _ _ (legalsGeneric_nonempty _ _ _ _ _ _
+      (legalsGeneric_nonempty _ _ _ _ _ _ (legalsGeneric_nonempty _ _ _ _ _ _
+        (legalsKnight_nonempty _ _ _ _ _ (legalsPawn_nonempty _ _ _ _ _ h0)))))
+  · split
+    · exact legalsKing_nonempty _ _ _ _ _ (legalsGeneric_nonempty _ _ _ _ _ _
+        (legalsGeneric_nonempty _ _ _ _ _ _ (legalsGeneric_nonempty _ _ _ _ _ _
+          (legalsKnight_nonempty _ _ _ _ _ (legalsPawn_nonempty _ _ _ _ _ h0)))))
+    · exact legalsKing_nonempty _ _ _ _ _ h0
+
+theorem inv_newLegal (T : Tables) (b : Board) : Inv (newLegal T b) :=
+  inv_fresh _ (enumerate_nonempty T b)
+
+/-! ### a sequence of masks, each drained -/
+
+/-- for each mask in turn: `set_iterator_mask`, then call `next` until `None`; the yields per mask -/
+def runMasks : MoveGen → List BB → List (List Move) × MoveGen
+  | g, [] => ([], g)
+  | g, B :: Bs =>
+    ((drain (setIteratorMask g B)).1 :: (runMasks (drain (setIteratorMask g B)).2 Bs).1,
+     (runMasks (drain (setIteratorMask g B)).2 Bs).2)
+
+/-- what a sequence of masks must yield from the entries `l` when the squares `seen` are used up:
+each mask gets the moves onto its squares not covered by an earlier mask -/
+def seqExpected (l : List Entry) : BB → List BB → List (List Move)
+  | _, [] => []
+  | seen, B :: Bs => allUnder l (B &&& ~~~seen) :: seqExpected l (seen ||| B) Bs
+
+/-- position-wise permutation of two lists of move lists -/
+def PermAll : List (List Move) → List (List Move) → Prop
+  | [], [] => True
+  | a :: as, b :: bs => a.Perm b ∧ PermAll as bs
+  | _, _ => False
+
+theorem PermAll.flatten : ∀ {a b : List (List Move)}, PermAll a b → a.flatten.Perm b.flatten
+  | [], [], _ => List.Perm.refl _
+  | _ :: _, _ :: _, h => by
+    simp only [List.flatten_cons]
+    exact h.1.append (PermAll.flatten h.2)
+  | [], _ :: _, h => h.elim
+  | _ :: _, [], h => h.elim
+
+theorem clearE_clearE (A B : BB) (e : Entry) : clearE B (clearE A e) = clearE (A ||| B) e := by
+  unfold clearE
+  have : e.bb &&& ~~~A &&& ~~~B = e.bb &&& ~~~(A ||| B) := by
+    apply BitVec.eq_of_getLsbD_eq
+    intro i hi
+    simp only [BitVec.getLsbD_and, BitVec.getLsbD_not, BitVec.getLsbD_or, hi, decide_true, Bool.true_and]
+    cases e.bb.getLsbD i <;> cases A.getLsbD i <;> cases B.getLsbD i <;> rfl
+  simp only [this]
+
+theorem runMasks_spec : ∀ (Bs : List BB) (g : MoveGen) (l0 : List Entry) (seen : BB),
+    g.promoIdx = 0 → g.moves.Perm (l0.map (clearE seen)) →
+    PermAll (runMasks g Bs).1 (seqExpected l0 seen Bs) ∧ (runMasks g Bs).2.promoIdx = 0 ∧
+    (runMasks g Bs).2.moves.Perm (l0.map (clearE (Bs.foldl (· ||| ·) seen))) := by
+  intro Bs
+  induction Bs with
+  | nil => intro g l0 seen h0 hp; exact ⟨trivial, h0, hp⟩
+  | cons B Bs ih =>
+    intro g l0 seen h0 hp
+    have hI := inv_setMask g h0 B
+    obtain ⟨d1, _, _, _, d5, d6⟩ := drain_exact _ hI
+    have hmask : (setIteratorMask g B).mask = B := (setIteratorMask_spec g B).2.1
+    have hperm : (setIteratorMask g B).moves.Perm g.moves := (setIteratorMask_spec g B).1
+    have hmoves : (drain (setIteratorMask g B)).2.moves.Perm (l0.map (clearE (seen ||| B))) := by
+      rw [d6, hmask]
+      have := ((hperm.trans hp).map (clearE B))
+      rw [List.map_map] at this
+      have heq : (clearE B ∘ clearE seen) = clearE (seen ||| B) := by
+        funext e; exact clearE_clearE seen B e
+      rw [heq] at this
+      exact this
+    obtain ⟨i1, i2, i3⟩ := ih (drain (setIteratorMask g B)).2 l0 (seen ||| B) d5 hmoves
+    refine ⟨⟨?_, i1⟩, i2, i3⟩
+    show (drain (setIteratorMask g B)).1.Perm (allUnder l0 (B &&& ~~~seen))
+    rw [d1, ← allUnder_map_clearE]
+    exact (under_setMask g h0 B).trans (allUnder_perm hp B)
+
+theorem seqExpected_flatten (l : List Entry) : ∀ (Bs : List BB) (seen : BB),
+    (seqExpected l seen Bs).flatten.Perm (allUnder l (Bs.foldr (· ||| ·) 0#64 &&& ~~~seen)) := by
+  intro Bs
+  induction Bs with
+  | nil =>
+    intro seen
+    have : (0#64 &&& ~~~seen) = 0#64 := by simp
+    simp only [seqExpected, List.flatten_nil, List.foldr_nil, this]
+    rw [allUnder_eq_nil (fun e _ => by simp)]
+  | cons B Bs ih =>
+    intro seen
+    simp only [seqExpected, List.flatten_cons, List.foldr_cons]
+    have h := allUnder_union_perm l (B &&& ~~~seen) (Bs.foldr (· ||| ·) 0#64 &&& ~~~seen)
+    have e1 : (B &&& ~~~seen ||| Bs.foldr (· ||| ·) 0#64 &&& ~~~seen) =
+        (B ||| Bs.foldr (· ||| ·) 0#64) &&& ~~~seen := by
+      apply BitVec.eq_of_getLsbD_eq
+      intro i hi
+      simp only [BitVec.getLsbD_and, BitVec.getLsbD_not, BitVec.getLsbD_or, hi, decide_true, Bool.true_and]
+      cases B.getLsbD i <;> cases seen.getLsbD i <;> cases (Bs.foldr (· ||| ·) 0#64).getLsbD i <;> rfl
+    have e2 : (Bs.foldr (· ||| ·) 0#64 &&& ~~~seen &&& ~~~(B &&& ~~~seen)) =
+        Bs.foldr (· ||| ·) 0#64 &&& ~~~(seen ||| B) := by
+      apply BitVec.eq_of_getLsbD_eq
+      intro i hi
+      simp only [BitVec.getLsbD_and, BitVec.getLsbD_not, BitVec.getLsbD_or, hi, decide_true, Bool.true_and]
+      cases B.getLsbD i <;> cases seen.getLsbD i <;> cases (Bs.foldr (· ||| ·) 0#64).getLsbD i <;> rfl
+    rw [e1, e2] at h
+    exact ((List.Perm.refl _).append (ih (seen ||| B))).trans h.symm
+
+theorem clearE_zero (e : Entry) : clearE 0#64 e = e := clearE_of_empty _ _ (by simp)
+
+/-- a generator (not in the middle of a promotion) run through any sequence of masks: the yields of
+the `k`-th mask are the moves onto its squares not covered by earlier masks, and in total every
+move onto the union of the masks is yielded exactly once -/
+theorem runMasks_total (g : MoveGen) (h0 : g.promoIdx = 0) (Bs : List BB) :
+    PermAll (runMasks g Bs).1 (seqExpected g.moves 0#64 Bs) ∧
+    (runMasks g Bs).1.flatten.Perm (allUnder g.moves (Bs.foldr (· ||| ·) 0#64)) := by
+  have hp : g.moves.Perm (g.moves.map (clearE 0#64)) := by
+    have : g.moves.map (clearE 0#64) = g.moves := by
+      conv => rhs; rw [← List.map_id g.moves]
+      exact List.map_congr_left (fun e _ => clearE_zero e)
+    rw [this]
+  obtain ⟨h1, _, _⟩ := runMasks_spec Bs g g.moves 0#64 h0 hp
+  refine ⟨h1, (PermAll.flatten h1).trans ?_⟩
+  have := seqExpected_flatten g.moves Bs 0#64
+  have e : (Bs.foldr (· ||| ·) 0#64 &&& ~~~0#64) = Bs.foldr (· ||| ·) 0#64 := by
+    apply BitVec.eq_of_getLsbD_eq
+    intro i hi
+    simp only [BitVec.getLsbD_and, BitVec.getLsbD_not, BitVec.getLsbD_zero, hi]
+    simp
+  rw [e] at this
+  exact this
+
+/-! ### reachable states -/
+
+/-- the states of a generator built from the entry list of some board (or any list of non-empty
+entries) by the operations in scope -/
+inductive Reach : MoveGen → Prop
+  | fresh (l : List Entry) : (∀ e ∈ l, e.bb ≠ 0#64) → Reach { moves := l, promoIdx := 0, mask := ~~~0#64, index := 0 }
+  | next (g : MoveGen) : Reach g → Reach (next g).2
+  | setMask (g : MoveGen) (m : BB) : Reach g → g.promoIdx = 0 → Reach (setIteratorMask g m)
+  | removeMask (g : MoveGen) (r : BB) : Reach g → g.promoIdx = 0 → Reach (removeMask g r)
+  | removeMove (g : MoveGen) (m : Move) : Reach g → g.promoIdx = 0 → Reach (removeMove g m).1
+
+theorem reach_inv {g : MoveGen} (h : Reach g) : Inv g := by
+  induction h with
+  | fresh l hl => exact inv_fresh l hl
+  | next g _ ih => exact inv_next g ih
+  | setMask g m _ h0 _ => exact inv_setMask g h0 m
+  | removeMask g r _ h0 _ => exact inv_removeMask g h0 r
+  | removeMove g m _ h0 _ => exact inv_removeMove g h0 m
+
+/-! ### the invariant by indices (the wording of DESIGN Appendix C) -/
+
+def InvIdx (g : MoveGen) : Prop :=
+  g.promoIdx < 4 ∧
+  (∀ i, i < g.index → ∀ e, g.moves[i]? = some e → e.bb &&& g.mask = 0#64) ∧
+  (∃ k, g.index ≤ k ∧
+    (∀ i, g.index ≤ i → i < k → ∃ e, g.moves[i]? = some e ∧ e.bb &&& g.mask ≠ 0#64) ∧
+    (∀ i, k ≤ i → ∀ e, g.moves[i]? = some e → e.bb &&& g.mask = 0#64)) ∧
+  (0 < g.promoIdx → ∃ e, g.moves[g.index]? = some e ∧ e.promo = true ∧ e.bb &&& g.mask ≠ 0#64)
+
+theorem inv_iff_invIdx (g : MoveGen) : Inv g ↔ InvIdx g := by
+  constructor
+  · rintro ⟨h1, h2, ⟨mid, post, hs, hmid, hpost⟩, h4⟩
+    refine ⟨h1, ?_, ⟨g.index + mid.length, by omega, ?_, ?_⟩, h4⟩
+    · intro i hi e he
+      apply h2 e
+      rw [List.mem_take_iff_getElem]
+      obtain ⟨hl, hg⟩ := List.getElem?_eq_some_iff.mp he
+      exact ⟨i, by omega, hg⟩
+    · intro i hi1 hi2
+      have hlt : i - g.index < mid.length := by omega
+      have : g.moves[i]? = some mid[i - g.index] := by
+        have h := List.getElem?_drop (xs := g.moves) (i := g.index) (j := i - g.index)
+        rw [hs, List.getElem?_append_left hlt, List.getElem?_eq_getElem hlt] at h
+        rw [show g.index + (i - g.index) = i by omega] at h
+        exact h.symm
+      exact ⟨_, this, hmid _ (List.getElem_mem hlt)⟩
+    · intro i hi e he
+      have h := List.getElem?_drop (xs := g.moves) (i := g.index) (j := i - g.index)
+      rw [hs, List.getElem?_append_right (by omega), show g.index + (i - g.index) = i by omega, he] at h
+      exact hpost e (List.mem_of_getElem? h)
+  · rintro ⟨h1, h2, ⟨k, hk, hA, hB⟩, h4⟩
+    refine ⟨h1, ?_, ⟨(g.moves.drop g.index).take (k - g.index), (g.moves.drop g.index).drop (k - g.index),
+      (List.take_append_drop _ _).symm, ?_, ?_⟩, h4⟩
+    · intro e he
+      obtain ⟨i, hi, hg⟩ := List.mem_take_iff_getElem.mp he
+      exact h2 i (by omega) e (by rw [← hg]; exact List.getElem?_eq_getElem _)
+    · intro e he
+      obtain ⟨j, hj, hg⟩ := List.mem_take_iff_getElem.mp he
+      rw [List.getElem_drop] at hg
+      obtain ⟨e', he', hne⟩ := hA (g.index + j) (by omega) (by omega)
+      have : g.moves[g.index + j]? = some e := by rw [← hg]; exact List.getElem?_eq_getElem _
+      rw [this] at he'; cases he'; exact hne
+    · intro e he
+      obtain ⟨j, hj, hg⟩ := List.mem_drop_iff_getElem.mp he
+      rw [List.getElem_drop] at hg
+      exact hB (g.index + (k - g.index + j)) (by omega) e (by rw [← hg]; exact List.getElem?_eq_getElem _)
+
+/-! ### removed moves stay removed, whatever masks follow -/
+
+theorem removeMask_then_masks (g : MoveGen) (h0 : g.promoIdx = 0) (r : BB) (Bs : List BB) :
+    (runMasks (removeMask g r) Bs).1.flatten.Perm
+      ((allUnder g.moves (Bs.foldr (· ||| ·) 0#64)).filter fun x => !r.getLsbD x.dst.val) := by
+  have h := (runMasks_total (removeMask g r) (by rw [removeMask_promoIdx]; exact h0) Bs).2
+  rw [allUnder_filter_dst]
+  exact h.trans (allUnder_perm (removeMask_moves_perm g r) _)
+
+theorem removeMove_then_masks (g : MoveGen) (h0 : g.promoIdx = 0) (m : Move) (Bs : List BB) :
+    (runMasks (removeMove g m).1 Bs).1.flatten.Perm
+      ((allUnder g.moves (Bs.foldr (· ||| ·) 0#64)).filter
+        fun x => !(decide (x.src = m.src) && decide (x.dst = m.dst))) := by
+  have h := (runMasks_total (removeMove g m).1 (by rw [removeMove_promoIdx]; exact h0) Bs).2
+  rw [allUnder_filter_move]
+  exact h.trans (allUnder_perm (removeMove_moves_perm g m) _)
+
+theorem and_allOnes (b : BB) : b &&& ~~~0#64 = b := by
+  apply BitVec.eq_of_getLsbD_eq
+  intro i hi
+  simp only [BitVec.getLsbD_and, BitVec.getLsbD_not, BitVec.getLsbD_zero, hi]
+  simp
+
+/-- all moves of an entry list: every destination of every entry, promotions fourfold -/
+def allMoves (l : List Entry) : List Move := allUnder l (~~~0#64)
+
+theorem mem_allUnder {l : List Entry} {mask : BB} {x : Move} :
+    x ∈ allUnder l mask ↔ ∃ e ∈ l, e.sq = x.src ∧ e.bb.getLsbD x.dst.val = true ∧
+      mask.getLsbD x.dst.val = true ∧
+      (if e.promo then x.promo ∈ promotionPieces.map some else x.promo = none) := by
+  unfold allUnder movesUnder
+  simp only [List.mem_flatMap, mem_sqsOf, BitVec.getLsbD_and, Bool.and_eq_true]
+  constructor
+  · rintro ⟨e, he, d, ⟨hd1, hd2⟩, hx⟩
+    have h12 := mem_expand hx
+    refine ⟨e, he, h12.1.symm, by rw [h12.2]; exact hd1, by rw [h12.2]; exact hd2, ?_⟩
+    unfold expand at hx
+    cases hp : e.promo <;> rw [hp] at hx <;> simp at hx ⊢
+    · rw [hx]
+    · obtain ⟨p, hp1, hp2⟩ := hx
+      exact ⟨p, hp1, by rw [← hp2]⟩
+  · rintro ⟨e, he, h1, h2, h3, h4⟩
+    refine ⟨e, he, x.dst, ⟨h2, h3⟩, ?_⟩
+    unfold expand
+    cases hp : e.promo <;> rw [hp] at h4 <;> simp at h4 ⊢
+    · cases x; simp_all
+    · obtain ⟨p, hp1, hp2⟩ := h4
+      exact ⟨p, hp1, by cases x; simp_all⟩
+
 end Iter
 end Chess
